@@ -13,6 +13,7 @@
 //	{"fam":"randrt","seed":s,"count":n}      seeded random wrappers and typed records, full int64 range
 //	{"fam":"randparse","seed":s,"count":n}   seeded random byte strings and mutated valid encodings
 //	{"fam":"altmeta","seed":s,"count":n}     records whose meta section is JSON/CBOR/MsgPack/YAML/gzip
+//	{"fam":"misc"}                           API corners (nil meta, foreign arguments): survival only
 //
 // Symbolic -> concrete: byte strings, keys and strings are arrays of 0..255; an int64 is the array of
 // its 8 little-endian bytes; the meta flags are read back through Meta.CheckPermission.
@@ -338,6 +339,50 @@ func parse(cls string, b []byte) {
 	})
 }
 
+// misc exercises records without metadata and foreign arguments; the events carry no verdict data.
+func misc() {
+	cases := map[string]func(){
+		"wrapper-nil-meta": func() {
+			w, _ := record.NewWrapper("db:k", nil, dsd.JSON, []byte("{}"))
+			_, _ = w.MarshalRecord(w)
+			_, _ = w.Marshal(w, dsd.JSON)
+		},
+		"typed-nil-meta": func() {
+			t := &Typed{S: "x"}
+			t.SetKey("db:k")
+			_, _ = t.MarshalRecord(t)
+			_, _ = t.Marshal(t, dsd.JSON)
+		},
+		"unwrap-nil": func() {
+			_ = record.Unwrap(nil, &Typed{})
+			_ = record.Unwrap(&Typed{}, &Typed{})
+		},
+		"unwrap-empty-wrapper": func() {
+			_ = record.Unwrap(&record.Wrapper{}, &Typed{})
+			w, _ := record.NewWrapper("", &record.Meta{}, dsd.JSON, nil)
+			_ = record.Unwrap(w, &Typed{})
+		},
+		"parse-nil": func() {
+			_, _ = record.NewRawWrapper("", "", nil)
+			_, _ = record.NewRawWrapper("", "", []byte{})
+		},
+		"format-mismatch": func() {
+			w, _ := record.NewWrapper("db:k", &record.Meta{}, dsd.CBOR, []byte{0xa0})
+			_, _ = w.Marshal(w, dsd.JSON)
+		},
+	}
+	names := make([]string, 0, len(cases))
+	for n := range cases {
+		names = append(names, n)
+	}
+	sort.Strings(names)
+	for _, n := range names {
+		ev := map[string]any{"e": "misc", "cls": n}
+		step(ev, n, cases[n])
+		emit(ev)
+	}
+}
+
 // ---------------------------------------------------------------- seeded generators
 
 var boundary = []int64{0, 1, -1, 2, 127, 128, 255, 256, -128, -129, 1 << 31, -(1 << 31), 1<<32 - 1, 1 << 32, 1 << 53,
@@ -506,6 +551,9 @@ func run(d directive) {
 	case "parse":
 		try("parse", d.Cls)
 		parse(d.Cls, vio.Bytes(d.B))
+	case "misc": // API corners on which the property is silent: only survival is judged
+		try("misc", "misc")
+		misc()
 	case "randrt":
 		r := rand.New(rand.NewSource(d.Seed))
 		try("randrt", "rand")
